@@ -39,7 +39,8 @@ RULE = ("histories of 3-14 calls (subscribe/unsubscribe of up to 5 subscribers, 
         "from a small grid so that calls coincide with each other and with source messages; sources cold or hot, completing / failing / "
         "never ending; subject kinds plain (publish, multicast(Subject()), share), BehaviorSubject (publish_value), ReplaySubject(buffer 0..3 "
         "or unbounded); wrappers raw connectable / ref_count / auto_connect(0..3); plus multicast(subject_factory, mapper) with mapper = "
-        "identity or merge(c, c); plus 'sync' cases: a source that emits 0-3 values (and maybe a terminal) from inside its subscribe(), "
+        "identity or merge(c, c); plus oracle-only 'mcast_win' cases: replay(mapper=concat(c.take(n), c), window=W[, buffer_size]) without an operator-level "
+        "scheduler, subscribed with an explicit TestScheduler (the late second use must get exactly the values still inside the window); plus 'sync' cases: a source that emits 0-3 values (and maybe a terminal) from inside its subscribe(), "
         "publish / publish_value / replay(0..2|unbounded), raw connectable and two ref_count views, subscribers that connect() / subscribe (to any view) / dispose another "
         "subscription / make the source emit from inside on_next (nested up to depth 2), top-level connect/disconnect/unsubscribe/push. Non-trivial: at least two different call kinds and at least one delivery. Distinct by canonical JSON.")
 ASSUMPTIONS = [
@@ -136,9 +137,12 @@ def cases(rng, tier):
             c["ops"].append([t, o])
         yield c
     yield from gen_sync_cases(rng, tier)
+    yield from gen_mcast_win_cases(rng, tier)
 
 
 def model_request(case):
+    if case["op"] == "mcast_win":
+        return None
     if case["op"] == "sync_run":
         return {k: v for k, v in case.items() if not (k == "buf" and v is None)}
     c = {k: v for k, v in case.items() if k not in ("via",)}
@@ -169,17 +173,17 @@ def gen_sync_cases(rng, tier):
         nxt = [0]
         nconn = [0]
 
-        def new_sub(depth):
+        def new_sub(depth, parent_view="top"):
             i = nxt[0]
             nxt[0] += 1
-            view = rng.choice([None, 0, 0, 1])
+            view = rng.choice([None, 0, 0, 1]) if parent_view == "top" or rng.random() < 0.5 else parent_view
             react = None
             if depth < 2 and rng.random() < 0.55:
                 a = len(c["actions"])
                 c["actions"].append(None)
                 k = rng.random()
                 if k < 0.45:
-                    act = new_sub(depth + 1)
+                    act = new_sub(depth + 1, view)
                 elif k < 0.75:
                     act = ["connect"]
                 elif k < 0.88 and i > 0:
@@ -277,6 +281,7 @@ def impl_sync(case):
     subject.on_next, subject.on_error, subject.on_completed = w_next, w_err, w_comp
     views = {}
     out, disps, handles, marks = {}, {}, [], {}
+    sub_view = {}
 
     def view(k):
         if k is None:
@@ -291,6 +296,7 @@ def impl_sync(case):
             lg = out.setdefault(str(i), [])
             got = [0]
             marks[i] = [tick(), None]
+            sub_view[str(i)] = v
 
             def on_next(x):
                 lg.append(["N", x])
@@ -333,12 +339,20 @@ def impl_sync(case):
             do(op)
     ids = sorted(int(i) for i in out)
     return {"out": {str(i): out[str(i)] for i in ids}, "nsrc": nsub[0], "maxopen": state["maxopen"], "hasSub": bool(conn.has_subscription),
-            "_feed": feed, "_marks": {str(i): marks[i] for i in ids}}
+            "_feed": feed, "_marks": {str(i): marks[i] for i in ids}, "_views": sub_view}
 
 
 def oracle_sync(case, o):
     if o["maxopen"] > 1:
         return f"{o['maxopen']} source subscriptions were open at the same time for one connectable (source subscribed {o['nsrc']} times)"
+    # ref_count connects at 0 -> 1 and stays connected while it has subscribers: with a single view, nobody else disconnecting,
+    # a view that still has a live subscriber at the end means the connectable is connected
+    views = {v for v in o["_views"].values() if v is not None}
+    no_disc = not any(x[0] == "disconnect" for x in case["ops"])
+    live = [i for i, v in o["_views"].items() if v is not None and o["_marks"][i][1] is None]
+    if len(views) == 1 and no_disc and live and not o["hasSub"]:
+        return (f"ref_count view still has live subscribers {live} but the connectable is not connected "
+                f"(source subscribed {o['nsrc']} times): the 0 -> 1 edge did not connect")
     # every subscriber receives what the shared subject receives from its subscription on
     feed = o["_feed"]
     term = next(([t, n] for t, n in feed if n[0] in ("C", "E")), None)
@@ -404,6 +418,90 @@ def oracle_sync(case, o):
 
 
 
+# =============================================================================== replay(mapper, window) with a late-subscribing mapper
+def gen_mcast_win_cases(rng, tier):
+    """replay(mapper=m, window=W[, buffer_size]) WITHOUT an operator-level scheduler, subscribed with an explicit scheduler;
+    m = lambda c: concat(c.take(n), c) uses the shared sequence a second time, late.  Oracle only (time windows of the
+    ReplaySubject are the subject family's model)."""
+    for _ in range(fw.tier_scale(tier, 400, 4000)):
+        hot = rng.random() < 0.5
+        subs = sorted(rng.sample([200, 205, 215, 230, 260], rng.choice([1, 1, 2])))
+        yield {"op": "mcast_win", "hot": hot, "msgs": gen_msgs(rng, hot), "n": rng.choice([1, 2, 2, 3]), "window": rng.choice([5, 10, 15, 30, 60]),
+               "buf": rng.choice([None, None, 1, 2]), "subs": subs, "horizon": HORIZON}
+
+
+def impl_mcast_win(case):
+    import reactivex as rx
+    from reactivex import operators as ops
+    from reactivex.testing import TestScheduler
+
+    sched = TestScheduler()
+    src = _source(sched, case)
+    n = case["n"]
+    target = src.pipe(ops.replay(mapper=lambda c: rx.concat(c.pipe(ops.take(n)), c), buffer_size=case["buf"], window=case["window"]))
+    out = {}
+    disps = []
+
+    def mk(i):
+        def act(s, st):
+            lg = out.setdefault(str(i), [])
+            disps.append(target.subscribe(lambda v: lg.append([int(sched.clock), ["N", enc(v)]]),
+                                          lambda e: lg.append([int(sched.clock), ["E", err_name(e)]]),
+                                          lambda: lg.append([int(sched.clock), ["C"]]), scheduler=sched))
+        return act
+
+    for i, t in enumerate(case["subs"]):
+        sched.schedule_absolute(t, mk(i))
+    sched.schedule_absolute(case["horizon"], lambda s, st: [d.dispose() for d in disps])
+    sched.start()
+    return {"out": out, "src": fw.subs_json(src.subscriptions)}
+
+
+def oracle_mcast_win(case, o):
+    """written from the property text: one source subscription per subscription; the late use of the shared sequence gets the values
+    that are still inside the window (and the buffer bound) when it subscribes, then everything that follows"""
+    n, W, buf = case["n"], case["window"], case["buf"]
+    if [s for s, _ in o["src"]] != case["subs"]:
+        return f"replay(mapper): subscriptions at {case['subs']} but the source was subscribed at {[s for s, _ in o['src']]}"
+    for i, t0 in enumerate(case["subs"]):
+        feed = []
+        for t, x in case["msgs"]:
+            at = t if case["hot"] else t0 + t
+            if at > t0:
+                feed.append([at, x])
+                if x[0] != "N":
+                    break
+        exp, taken, T, ended = [], 0, None, None
+        for at, x in feed:
+            if x[0] == "N":
+                exp.append([at, x])
+                taken += 1
+                if taken == n:
+                    T = at
+                    break
+            elif x[0] == "E":
+                exp.append([at, x])
+                ended = "E"
+                break
+            else:
+                T = at  # the first use completes with the source; the second one starts then
+                break
+        if ended is None and T is not None:
+            vals = [[at, x] for at, x in feed if x[0] == "N" and at <= T and T - at <= W]
+            if buf is not None:
+                vals = vals[-buf:] if buf > 0 else []
+            exp += [[T, x] for _, x in vals]
+            for at, x in feed:
+                if at > T or (x[0] != "N" and at == T):
+                    exp.append([at, x])
+        got = o["out"].get(str(i), [])
+        if got != exp:
+            return (f"replay(mapper=concat(c.take({n}), c), window={W}, buffer_size={buf}) subscribed at {t0} with an explicit scheduler delivered "
+                    f"{got}; the late use of the shared sequence must get the values inside the window at its subscription and what follows: {exp}")
+    return None
+
+
+
 # =============================================================================== real code
 def _source(sched, case):
     from reactivex.testing import ReactiveTest
@@ -430,6 +528,8 @@ def _subject_factory(case):
 
 
 def impl(case):
+    if case["op"] == "mcast_win":
+        return impl_mcast_win(case)
     if case["op"] == "sync_run":
         return impl_sync(case)
     import reactivex as rx
@@ -536,6 +636,8 @@ def _present_intervals(case, out):
 
 
 def oracle(case, o):
+    if case["op"] == "mcast_win":
+        return oracle_mcast_win(case, o)
     if case["op"] == "sync_run":
         return oracle_sync(case, o)
     src = o["src"]
@@ -711,6 +813,8 @@ def oracle(case, o):
 
 
 def nontrivial(case, o):
+    if case["op"] == "mcast_win":
+        return any(len(v) > case["n"] for v in o["out"].values())
     if case["op"] == "sync_run":
         return o["nsrc"] >= 1 and any(o["out"].values())
     kinds = {x[0] for _, x in case["ops"]}
@@ -719,6 +823,9 @@ def nontrivial(case, o):
 
 def bucket(case, o):
     yield case["op"]
+    if case["op"] == "mcast_win":
+        yield "mcast_win:" + ("hot" if case["hot"] else "cold")
+        return
     if case["op"] == "sync_run":
         yield "sync:subject:" + case["subject"]
         yield "sync:reactions:%d" % len(case["actions"])
@@ -735,6 +842,16 @@ def bucket(case, o):
 
 
 def shrink(case):
+    if case["op"] == "mcast_win":
+        for i in range(len(case["msgs"])):
+            c = dict(case)
+            c["msgs"] = case["msgs"][:i] + case["msgs"][i + 1:]
+            yield c
+        if len(case["subs"]) > 1:
+            c = dict(case)
+            c["subs"] = case["subs"][:1]
+            yield c
+        return
     if case["op"] == "sync_run":
         for i in range(len(case["ops"])):
             if len(case["ops"]) > 1:
